@@ -5,7 +5,7 @@
     * a capped `Vec::with_capacity` in the time-index `read_track`                  (fixes/C30.diff)
     * `data.len() - 14 < len` in `MemoriesTrack::deserialize` / `LogicMesh::deserialize`,
       no `debug_assert!(probe.wal_pending == 0)` in `DoctorPlanner::compute`,
-      `start.checked_add(*pos)` in `BlobReader`                                     (fixes/C22.diff)
+      (and `blob_reader_from_frame` pre-reads the payload, or `BlobReader` adds checked)   (fixes/C22.diff)
   With any of the original shapes the first theorem is false and the module fails to build; the
   crash characterisations and witnesses in MvProps/C22.lean hold for both shapes.
 -/
@@ -16,7 +16,7 @@ open Mv
 /-- every risky expression is in its repaired shape in the working tree -/
 theorem repaired_flags :
     Gen.C39.READER_CHECKED_ARITH = true ∧ Gen.C22.MEMORIES_LEN_CHECKED = true ∧ Gen.C22.MESH_LEN_CHECKED = true ∧
-    Gen.C22.DOCTOR_ASSERTS_NO_PENDING = false ∧ Gen.C22.BLOB_CHECKED = true ∧
+    Gen.C22.DOCTOR_ASSERTS_NO_PENDING = false ∧ (Gen.C22.BLOB_OPEN_VERIFIES || Gen.C22.BLOB_CHECKED) = true ∧
     (match TimeIndex.PREALLOC_CAP with | some c => decide (c * 16 ≤ 2^63 - 1) | none => false) = true := by decide
 
 /-- **C22_total_sketch_reader** — `read_sketch_track` on any file, offset and length. -/
@@ -34,9 +34,10 @@ theorem C22_total_mesh_header (data : Bytes) (hl : data.length < 2^64) : (meshHe
 theorem C22_total_doctor_planner (walPending : Nat) : (plannerCompute walPending).Safe :=
   plannerCompute_safe repaired_flags.2.2.2.1 walPending
 
-/-- **C22_total_blob_seek** — `BlobReader::seek(SeekFrom::Start(_))` for any frame offset / length. -/
-theorem C22_total_blob_seek (start len target : Nat) : (blobSeek start len target).Safe :=
-  blobSeek_safe repaired_flags.2.2.2.2.1 start len target
+/-- **C22_total_blob_seek** — `blob_reader(id)?.seek(SeekFrom::Start(_))` for any frame offset / length in the TOC. -/
+theorem C22_total_blob_seek (fileLen start len target : Nat) (ckOk : Bool) (hlen : fileLen < 2^63) :
+    (blobOpenSeek fileLen start len target ckOk).Safe :=
+  C22_total_blob _ _ repaired_flags.2.2.2.2.1 fileLen start len target ckOk hlen
 
 /-- **C22_total_time_index** — `read_track` with the capped pre-allocation: no "capacity overflow"
     panic for any declared count, and no allocation abort as long as the allocator grants requests
